@@ -35,11 +35,18 @@ RULE = ('a case = a node of 1..3 generated module classes (base Module/Readable/
         'or error), and the whole structure report (wire names in order, datainfo rebuilt with get_datatype, unit, readonly, '
         'constant, group, visibility, implementation, interface_classes, features).  Plus an exhaustive scope: every combination '
         'of module export x class export setting x configured export x kind x predefined/custom name, probed with every request kind.  '
+        'The node is started by the real Server._processCfg (create_modules, start-up get_descriptive_data, get_module of every module).  '
+        '150 (quick) cases contain an output module with the real mixin HasControlledBy and one or two control loops '
+        '(HasOutputModule) attached to it by the configuration, listed before or after it, exported or not: initModule of a loop '
+        'extends the enum of the output module controlled_by during start-up; driver assignments of the new members follow.  '
         'non-trivial = at least one request was answered with data or an update; distinct = distinct (node, history).')
 ASSUMPTIONS = [
     'user read methods return the content of a hardware register and never raise themselves; there are no user write_/check_ '
     'methods (a change stores the validated value); command methods return a fixed value valid for the result type; no poller '
-    'is started (startModule is not called)',
+    'is started (Server._processCfg with testonly: startModule is not called)',
+    'attachments: only HasOutputModule -> HasControlledBy (frappy/mixins.py); an output module has no output module itself (no '
+    'chains); the control loops have no write_target (activate_control / update_target are not exercised, controlled_by is set '
+    'by driver-side assignments)',
     'omit_unchanged_within = 0 (every announceUpdate is delivered); one connection; single thread; time stamps are not compared',
     'datatypes restricted to double, int, scaled, bool, enum, string, fixed-length array of int, struct of leaves (+ the inherited '
     'status tuple and pollinterval); datatype validation itself is the subject of C01 (its model FV.C01.Model is imported)',
@@ -60,6 +67,7 @@ BASES = ['Module', 'Readable', 'Writable', 'Drivable']
 BASE_ACCESSIBLES = {'Module': [], 'Readable': ['value', 'status', 'pollinterval'],
                     'Writable': ['value', 'status', 'pollinterval', 'target'],
                     'Drivable': ['value', 'status', 'pollinterval', 'target', 'stop']}
+MIXIN_ACCESSIBLES = {'cb': ['controlled_by'], 'om': ['control_active']}
 PREDEFINED_PARAMS = ['value', 'status', 'target', 'pollinterval', 'ramp', 'use_ramp', 'setpoint', 'time_to_target',
                      'controlled_by', 'control_active', 'unit', 'loglevel', 'mode', 'ctrlpars']
 PREDEFINED_CMDS = ['stop', 'reset', 'go', 'abort', 'shutdown', 'communicate']
@@ -88,18 +96,34 @@ class _Conn:
 
 
 class _Srv:
+    """the node is started by the real frappy.server.Server._processCfg (create_modules, the start-up call of
+    get_descriptive_data which initialises the exported modules one by one, then get_module for every module); the Server
+    object is made without Server.__init__ (no configuration file, no interfaces): _processCfg reads name, log, node_cfg,
+    module_cfg, _testonly only"""
     def __init__(self, cfg):
-        from frappy.protocol.dispatcher import Dispatcher
-        from frappy.secnode import SecNode
-        log = _Log()
-        self.module_cfg = cfg
-        self.restart = self.shutdown = None
-        self.secnode = SecNode('node', log, {'equipment_id': 'eq'}, self)
-        self.dispatcher = Dispatcher('dispatcher', log, {}, self)
-        self.secnode.add_secnode_property('description', 'generated node')
-        self.secnode.create_modules()
-        for name in list(self.secnode.modules):
-            self.secnode.get_module(name)
+        import io
+        import sys
+        from frappy.server import Server
+        srv = Server.__new__(Server)
+        srv.name = 'node'
+        srv.log = _Log()
+        srv.node_cfg = {'cls': 'frappy.protocol.dispatcher.Dispatcher', 'equipment_id': 'eq', 'description': 'generated node'}
+        srv.module_cfg = cfg
+        srv.interfaces = {}
+        srv._testonly = True
+        srv.restart = srv.shutdown = None
+        self.failed = False
+        saved = sys.stderr
+        sys.stderr = io.StringIO()
+        try:
+            srv._processCfg()
+        except SystemExit:
+            self.failed = True          # _processCfg prints the collected configuration errors and exits
+        finally:
+            sys.stderr = saved
+        self.srv = srv
+        self.secnode = srv.secnode
+        self.dispatcher = srv.dispatcher
 
 
 def _build_dt(d, unit=''):
@@ -150,7 +174,22 @@ def _make_class(mod, idx):
     base = Module if mod['base'] == 'Module' else getattr(FM, mod['base'])
     feats = tuple(type(f, (Feature,), {}) for f in mod['features'])
     ns['_hw'] = None
-    return type(f'Gen{idx}{mod["base"]}', feats + (base,), ns)
+    ns['_built'] = None
+    mixins = ()
+    if mod.get('mixin') == 'cb':
+        from frappy.mixins import HasControlledBy
+        mixins = (HasControlledBy,)
+    elif mod.get('mixin') == 'om':
+        from frappy.mixins import HasOutputModule
+        mixins = (HasOutputModule,)
+    cls = type(f'Gen{idx}{mod["base"]}', feats + mixins + (base,), ns)
+
+    def init(self, *args, **kwds):
+        # what Module.__init__ built (datatypes of the instance's Parameter objects), recorded before any module is initialised
+        super(cls, self).__init__(*args, **kwds)
+        self._built = {attr: _acc_model_data(attr, None, aobj) for attr, aobj in self.accessibles.items()}
+    cls.__init__ = init
+    return cls
 
 
 AUTO_PROPS = ('implementation', 'interface_classes', 'features')
@@ -164,6 +203,8 @@ def _cfg_of(mod, cls):
         cfg['group'] = mod['group']
     if mod['vis'] != 1:
         cfg['visibility'] = mod['vis']
+    if mod.get('mixin') == 'om' and mod.get('output_module'):
+        cfg['output_module'] = mod['output_module']
     for key, value in mod.get('cfg_auto', []):
         # a configuration naming module properties which the code derives from the class
         cfg[key] = value
@@ -272,6 +313,27 @@ def _importable(dtobj, value):
         return False
 
 
+def _stale(secnode, desc):
+    """described parameters whose described datainfo is not the datainfo of the live Parameter object of the node
+    (both through JSON): [module, wire, described, in use]"""
+    res = []
+    for mn, md in desc['modules'].items():
+        mobj = secnode.modules.get(mn)
+        for w, ad in md['accessibles'].items():
+            attr = mobj.accessiblename2attr.get(w) if mobj is not None else None
+            aobj = mobj.accessibles.get(attr) if attr is not None else None
+            if aobj is None:
+                continue
+            try:
+                used = json.loads(json.dumps(aobj.datatype.export_datatype()))
+                shown = json.loads(json.dumps(ad['datainfo']))
+            except Exception:
+                continue
+            if used != shown:
+                res.append([mn, str(w), json.dumps(shown, sort_keys=True)[:300], json.dumps(used, sort_keys=True)[:300]])
+    return res
+
+
 def _acc_model_data(name, aobj_cls, aobj):
     """what the model needs about one accessible of the instantiated module, read from the run-time objects"""
     from frappy.params import Parameter
@@ -314,7 +376,7 @@ def run_case(case):
             srv = _Srv({mod['name']: _cfg_of(mod, cls) for mod, cls in zip(case['mods'], classes)})
         except Exception as e:
             return {'build_error': f'{_exc_name(e)}: {e}'}
-        if srv.secnode.errors or len(srv.secnode.modules) != len(case['mods']):
+        if srv.failed or srv.secnode.errors or len(srv.secnode.modules) != len(case['mods']):
             # the implementation refused the configuration: the model is told what the classes say
             from frappy.modulebase import Feature
             mods = []
@@ -335,7 +397,7 @@ def run_case(case):
             accs = []
             for attr, aobj in mobj.accessibles.items():
                 spec = own.get(attr) or _inherited_spec(attr, cls.accessibles[attr])
-                accs.append({'spec': spec, 'rt': _acc_model_data(attr, cls.accessibles[attr], aobj)})
+                accs.append({'spec': spec, 'rt': mobj._built[attr]})          # as constructed, before start-up
             mods.append({'impl': f'{cls.__module__}.{cls.__name__}',
                          'mro': [[b.__name__, Feature in b.__bases__] for b in cls.__mro__], 'accs': accs})
 
@@ -373,6 +435,7 @@ def run_case(case):
                     st['reply'] = ['desc', _canon_desc(desc)]
                     st['text'] = text
                     st['strict'] = strict
+                    st['stale'] = _stale(srv.secnode, desc)
                     if first_desc is None:
                         first_desc = desc
                         for mn, md in desc['modules'].items():
@@ -610,8 +673,14 @@ def encode(case, obs):
     if 'rejected' in obs:
         ops = '[]'
     lets = ''.join(f'let {name} : description := {term} in\n  ' for term, name in shared.items())
-    return '(%s{| c_env := %s; c_cfg := %s; c_ops := %s; c_obs := %s; c_rejected := %s |})' % (
-        lets, G.gal_pyenv(obs['env']), cfg, ops, steps, gal.boolean('rejected' in obs))
+    links = gal.lst(case_links(case), lambda l: f'({gs(l[0])}, {gs(l[1])})')
+    return '(%s{| c_env := %s; c_cfg := %s; c_ops := %s; c_obs := %s; c_rejected := %s; c_links := %s |})' % (
+        lets, G.gal_pyenv(obs['env']), cfg, ops, steps, gal.boolean('rejected' in obs), links)
+
+
+def case_links(case):
+    """(control loop, configured output module) in configuration order"""
+    return [[m['name'], m['output_module']] for m in case['mods'] if m.get('mixin') == 'om' and m.get('output_module')]
 
 
 def model_result_term(case, obs):
@@ -631,7 +700,7 @@ def spec_accessibles(mod):
     """[(attr, kind, wire name or None, spec)] of a module as the generated class + configuration intend it"""
     res = []
     own = {a['attr'] for a in mod['accs']}
-    for attr in BASE_ACCESSIBLES[mod['base']]:
+    for attr in BASE_ACCESSIBLES[mod['base']] + MIXIN_ACCESSIBLES.get(mod.get('mixin'), []):
         if attr not in own:
             res.append((attr, 'c' if attr in PREDEFINED_CMDS else 'p', attr if mod['export'] else None, None))
     for a in mod['accs']:
@@ -672,6 +741,11 @@ def oracle(case, obs):
         if not s['strict']:
             fail('strict-json', f'op {i}: the structure report is not strict JSON (or does not survive a JSON round trip)', op_index=i)
             break
+    # --- the description lists for every parameter the datainfo the node uses (current, not a stale copy)
+    for i, s in descs:
+        for mn, w, shown, used in s.get('stale', []):
+            fail('description-current', f'op {i}: {mn}:{w} is described with datainfo {shown} but the node works with {used}',
+                 op_index=i, module=mn, wire=w)
     for i, s in descs[1:]:
         if s['text'] != descs[0][1]['text']:
             fail('stable', f'op {i}: the structure report differs from the one of op {descs[0][0]}', op_index=i)
@@ -1325,6 +1399,56 @@ def rand_case(rng, findings):
     return {'mods': mods, 'ops': gen_ops(rng, mods, rng.randint(4, 14))}
 
 
+def gen_linked_case(rng):
+    """an output module (real mixin HasControlledBy) and one or two control loops (HasOutputModule) attached to it by the
+    configuration, in random order (the output module before or after its controller), exported or not: initModule of a
+    loop changes the datatype of the output module's controlled_by while the node is being started"""
+    def linked_mod(name, mixin):
+        while True:
+            m = gen_mod(rng, name, False)
+            if m['base'] in ('Writable', 'Drivable'):
+                break
+        m['accs'] = [a for a in m['accs'] if a['attr'] not in ('controlled_by', 'control_active', 'target', 'output_module')]
+        m['mixin'] = mixin
+        return m
+    outs = ['heater'] + (['valve'] if rng.random() < 0.2 else [])
+    mods = []
+    for o in outs:
+        m = linked_mod(o, 'cb')
+        m['export'] = rng.random() < 0.9
+        mods.append(m)
+    loops = ['loop'] + (['loop2'] if rng.random() < 0.35 else [])
+    for l in loops:
+        m = linked_mod(l, 'om')
+        m['output_module'] = rng.choice(outs) if rng.random() < 0.9 else None
+        mods.append(m)
+    if rng.random() < 0.3:
+        mods.append(gen_mod(rng, 'dev', False))
+    rng.shuffle(mods)
+    ops = gen_ops(rng, mods, rng.randint(2, 8))
+    extra = []
+    for _ in range(rng.randint(2, 5)):
+        o = rng.choice(outs)
+        r = rng.random()
+        if r < 0.5:
+            extra.append(['dset', o, 'controlled_by', G.tag(rng.choice([0, 1, 1, 2, 3, 'self', 'loop', 'loop2', 'nosuch', 2.5]))])
+            if rng.random() < 0.5:
+                extra.append(['read', o, 'controlled_by'])
+        elif r < 0.65:
+            extra.append(['activate', rng.choice([None, [o], [o, 'controlled_by']])])
+        elif r < 0.8:
+            extra.append(['change', o, 'controlled_by', G.tag(rng.choice([0, 1, 'loop']))])
+        elif r < 0.9:
+            extra.append(['dset', rng.choice(loops), 'control_active', G.tag(rng.choice([True, False, 1, 'x']))])
+        else:
+            extra.append(['describe'])
+    pos = rng.randint(1, len(ops))
+    ops = ops[:pos] + extra + ops[pos:]
+    if rng.random() < 0.5:
+        ops.insert(1, ['activate', None])
+    return {'mods': mods, 'ops': ops + [['describe']]}
+
+
 def exhaustive_cases(full=False):
     """every combination of module export x class export x configured export x kind x predefined/custom name
     (full: x readonly x constant none/class/configuration), probed with every request kind on every candidate name"""
@@ -1359,10 +1483,13 @@ def exhaustive_cases(full=False):
 
 def gen_cases(seed, tier):
     rng = random.Random(seed * 1000003 + 6)
-    n = {'quick': 2000, 'thorough': 20000, 'search': 20000}[tier]
+    n = {'quick': 1850, 'thorough': 20000, 'search': 20000}[tier]
     cases = list(exhaustive_cases(full=(tier != 'quick')))
     for i in range(n):
         cases.append(rand_case(rng, findings=(i % 4 == 0)))
+    rng2 = random.Random(seed * 1000003 + 606)
+    for i in range({'quick': 150, 'thorough': 2000, 'search': 2000}[tier]):
+        cases.append(gen_linked_case(rng2))
     return cases
 
 
@@ -1374,6 +1501,7 @@ def shrink(case):
         for i in range(len(case['mods'])):
             mods = case['mods'][:i] + case['mods'][i + 1:]
             keep = {m['name'] for m in mods}
+            mods = [dict(m, output_module=None) if m.get('output_module') and m['output_module'] not in keep else m for m in mods]
             yield {'mods': mods, 'ops': [o for o in ops if o[0] == 'describe' or
                                          (o[0] == 'activate' and (o[1] is None or o[1][0] in keep)) or
                                          (o[0] != 'activate' and o[1] in keep)]}
@@ -1399,5 +1527,6 @@ def search_cases(seed, mismatching):
         for _ in range(20):
             out.append({'mods': c['mods'], 'ops': gen_ops(rng, c['mods'], rng.randint(4, 14))})
     out.extend(exhaustive_cases())
+    out.extend(gen_linked_case(rng) for i in range(600))
     out.extend(rand_case(rng, findings=(i % 4 == 0)) for i in range(6000))
     return out
